@@ -9,19 +9,53 @@ bool my_crc32c_sse42_supported(void);
 uint32_t my_crc32c_sse42(const uint8_t *, size_t);
 }
 
+// ---------------------------------------------------------------- calls made before the library's own load-time initialisers
+// "every buffer" includes buffers checksummed from another library's (or the application's) static constructor, i.e. before
+// any constructor inside libmtbl has run; libmy/crc32c.c goes out of its way to support that.  This constructor runs first
+// (priority 101 < default) and records what the three entry points return for a few fixed buffers; the "vectors" mode and
+// `early <index>` cases compare the recorded values with the reference later.
+static const size_t EARLY_LENS[] = {0, 1, 7, 8, 9, 63, 64, 1100, 4096, 6143, 6144, 20000, 70000, 200000};
+static const int N_EARLY = (int)(sizeof EARLY_LENS / sizeof EARLY_LENS[0]);
+static uint8_t g_early_buf[200000 + 8];
+static uint32_t g_early_res[N_EARLY][3];
+static bool g_early_sse = false;
+static void early_fill() {
+  uint32_t x = 0x9E3779B9u;
+  for (size_t i = 0; i < sizeof g_early_buf; i++) {
+    x = x * 1664525u + 1013904223u;
+    g_early_buf[i] = (uint8_t)(x >> 24);
+  }
+}
+__attribute__((constructor(101))) static void early_probe() {
+  early_fill();
+  g_early_sse = my_crc32c_sse42_supported();
+  for (int i = 0; i < N_EARLY; i++) {
+    const uint8_t *p = g_early_buf + (i % 8);
+    g_early_res[i][0] = mtbl_crc32c(p, EARLY_LENS[i]);
+    g_early_res[i][1] = my_crc32c_slicing(p, EARLY_LENS[i]);
+    g_early_res[i][2] = g_early_sse ? my_crc32c_sse42(p, EARLY_LENS[i]) : 0;
+  }
+}
+
 struct Case {
   BStr buf;
   int align = 0;
-  bool valid() const { return align >= 0 && align < 64 && buf.size() <= (64u << 20); }
+  int early = -1;  // >= 0: not a buffer of its own but the index of a load-time probe (see above)
+  bool valid() const { return align >= 0 && align < 64 && buf.size() <= (64u << 20) && early >= -1 && early < N_EARLY; }
   std::string ser() const {
     Out o;
+    if (early >= 0) {
+      o << "property C17\nearly " << early << "\n";
+      return o.str();
+    }
     o << "property C17\nbuffer " << buf.ser() << " align=" << align << "\n";
     return o.str();
   }
   static Case parse(const std::string &t) {
     Case c;
     for (auto &row : Lines::parse(t).rows)
-      if (row[0] == "buffer" && row.size() >= 2) {
+      if (row[0] == "early" && row.size() >= 2) c.early = atoi(row[1].c_str());
+      else if (row[0] == "buffer" && row.size() >= 2) {
         c.buf = BStr::parse(row[1]);
         for (size_t i = 2; i < row.size(); i++)
           if (row[i].rfind("align=", 0) == 0) c.align = atoi(row[i].c_str() + 6);
@@ -67,9 +101,30 @@ static bool check_buf(const uint8_t *data, size_t n, int align, uint32_t want) {
   if (c != want) { snprintf(g_err, sizeof g_err, "my_crc32c_sse42(len %zu, alignment %d) = %08x, standard CRC-32C is %08x", n, align, c, want); return false; }
   return true;
 }
+static bool check_early(int i) {
+  const uint8_t *p = g_early_buf + (i % 8);
+  size_t n = EARLY_LENS[i];
+  uint32_t want = ref::crc32c_bitwise(p, n);
+  static const char *fn[3] = {"mtbl_crc32c", "my_crc32c_slicing", "my_crc32c_sse42"};
+  for (int f = 0; f < 3; f++) {
+    if (f == 2 && !g_early_sse) continue;
+    if (g_early_res[i][f] != want) {
+      snprintf(g_err, sizeof g_err, "%s(len %zu, alignment %d) called from a static constructor that runs before the library's own initialisers returned %08x, standard CRC-32C is %08x",
+               fn[f], n, i % 8, g_early_res[i][f], want);
+      return false;
+    }
+  }
+  return true;
+}
 static Result run_case(const Case &c) {
   Result r;
   g_have_sse = my_crc32c_sse42_supported();
+  if (c.early >= 0) {
+    if (!check_early(c.early)) r.failf("%s", g_err);
+    r.nontrivial = EARLY_LENS[c.early] >= 1;
+    r.tag("called_before_library_initialisers");
+    return r;
+  }
   bytes b = c.buf.expand();
   uint32_t want = b.size() <= 4096 ? ref::crc32c_bitwise(U(b), b.size()) : ref::crc32c_ref(U(b), b.size());
   if (!check_buf(U(b), b.size(), c.align, want)) r.failf("%s", g_err);
@@ -127,6 +182,17 @@ static int extra_modes(const WorkerOpts &o, Stats &stats) {
         if (ref::crc32c_bitwise(U(x.b), x.b.size()) != x.crc) { snprintf(g_err, sizeof g_err, "harness reference CRC disagrees with the RFC 3720 vector %08x", x.crc); return fail_out(o, x.b, 0); }
         if (!check_buf(U(x.b), x.b.size(), 0, x.crc)) return fail_out(o, x.b, 0);
         n_eval++;
+      }
+      for (int i = 0; i < N_EARLY; i++) {
+        Case ec;
+        ec.early = i;
+        Result er = run_case(ec);
+        stats.add(ec.ser(), er);
+        if (er.fail) {
+          write_file(o.outdir + "/fail.case", ec.ser());
+          write_file(o.outdir + "/fail.msg", g_err);
+          return 1;
+        }
       }
       bytes big;
       for (int i = 0; i < 100000; i++) big.push_back((char)rnd());
